@@ -54,7 +54,9 @@ func (mc multiCore) With(fields []Field) Core {
 }
 
 func (mc multiCore) Level() Level {
-	minLvl := _maxLevel // mc is never empty
+	// Start above every valid level so that a Tee of Cores that enable
+	// nothing reports InvalidLevel, like LevelOf does for any other Core.
+	minLvl := InvalidLevel
 	for i := range mc {
 		if lvl := LevelOf(mc[i]); lvl < minLvl {
 			minLvl = lvl
